@@ -7,7 +7,7 @@ import z3
 from engines import symrel as SR
 from harness import planlib as PL
 
-SCHEMA = {'t1': ['id', 'a', 'b'], 't2': ['id', 'c'], 'int1': ['id', 'x']}
+SCHEMA = {'t1': ['id', 'a', 'b'], 't2': ['id', 'c'], 'int1': ['id', 'x'], 't3': ['id', 'a.b', 'c d', 'int1.e']}
 FAMILY = [
     "SELECT a FROM int1.t1",
     "SELECT * FROM int1.t1 WHERE a > 1",
@@ -78,6 +78,19 @@ FAMILY = [
     "SELECT x.a FROM int1.t1 AS x JOIN int1.t2 ON 1 = 1 AND x.id = int1.t2.id",
     "SELECT a FROM int1.t1 WHERE NOT (0 = int1.t1.a OR int1.t1.b IS NULL)",
     "SELECT a FROM int1.t1 WHERE int1.t1.a IN (SELECT 0 + int1.t2.c FROM int1.t2)",
+    # column names that need quoting: a dot, a blank, a name that starts like the integration qualifier
+    "SELECT `a.b` FROM int1.t3",
+    "SELECT `a.b`, `c d` FROM int1.t3 WHERE `a.b` > 0",
+    "SELECT t3.`a.b`, t3.`c d` FROM int1.t3",
+    "SELECT int1.t3.`a.b` FROM int1.t3 WHERE int1.t3.`c d` IS NOT NULL",
+    "SELECT `int1.e` FROM int1.t3",
+    "SELECT t3.`int1.e`, id FROM int1.t3 WHERE `int1.e` = 1",
+    "SELECT `a.b` AS k, `c d` FROM int1.t3 ORDER BY `a.b` LIMIT 1",
+    "SELECT s.`a.b` FROM (SELECT `a.b`, `c d` FROM int1.t3) AS s WHERE s.`c d` > 0",
+    "SELECT `c d`, max(`a.b`) AS m FROM int1.t3 GROUP BY `c d`",
+    "SELECT q.`a.b`, t1.a FROM int1.t3 AS q JOIN int1.t1 ON q.id = t1.id",
+    "SELECT `a.b` FROM int1.t3 UNION SELECT `c d` FROM int1.t3",
+    "SELECT `a.b` + 1 AS s, coalesce(`c d`, `a.b`) AS v FROM int1.t3",
     "SELECT INT1.t1.a FROM INT1.t1",
     "SELECT a FROM Int1.t1 WHERE Int1.t1.b = 1",
 ]
@@ -151,7 +164,7 @@ def replay_member(sql, witness):
     con = SR.connect()
     con.execute("ATTACH DATABASE ':memory:' AS int1")
     for t, cols in SCHEMA.items():
-        con.execute('CREATE TABLE int1.%s (%s)' % (t, ', '.join('%s INTEGER' % c for c in cols)))
+        con.execute('CREATE TABLE int1.%s (%s)' % (t, ', '.join('"%s" INTEGER' % c for c in cols)))
         for r in witness['db'].get(t, []):
             con.execute('INSERT INTO int1.%s VALUES (%s)' % (t, ', '.join('?' * len(cols))), r)
     try:
@@ -161,7 +174,7 @@ def replay_member(sql, witness):
     # the pushed query runs INSIDE the integration: a database that knows its tables but not the name "int1"
     con2 = SR.connect()
     for t, cols in SCHEMA.items():
-        con2.execute('CREATE TABLE %s (%s)' % (t, ', '.join('%s INTEGER' % c for c in cols)))
+        con2.execute('CREATE TABLE %s (%s)' % (t, ', '.join('"%s" INTEGER' % c for c in cols)))
         for r in witness['db'].get(t, []):
             con2.execute('INSERT INTO %s VALUES (%s)' % (t, ', '.join('?' * len(cols))), r)
     try:
@@ -193,7 +206,7 @@ def validate_member(sql, R, D, rnd, n=2):
         con = SR.connect()
         con.execute("ATTACH DATABASE ':memory:' AS int1")
         for t, cols in SCHEMA.items():
-            con.execute('CREATE TABLE int1.%s (%s)' % (t, ', '.join('%s INTEGER' % c for c in cols)))
+            con.execute('CREATE TABLE int1.%s (%s)' % (t, ', '.join('"%s" INTEGER' % c for c in cols)))
             for r in data.get(t, []):
                 con.execute('INSERT INTO int1.%s VALUES (%s)' % (t, ', '.join('?' * len(cols))), r)
         try:
